@@ -290,7 +290,7 @@ def RJ(harness, api, n, b, extra, sh, label, **kw):
     return J(harness, [api, n, b, extra] + toks, label, cost=kw.pop('cost', 4 ** (S.nsym(sh) if not isinstance(sh, list) else 4) * 3 ** n), **kw)
 
 
-def regex_shapes(prop, tier, seed, cap_quick=None, cap_thorough=20):
+def regex_shapes(prop, tier, seed, cap_quick=None, cap_thorough=10):
     if tier == 'quick':
         sh = S.quick_list(prop, seed)
         if cap_quick:
@@ -396,7 +396,7 @@ def c16(tier, seed):
 
 
 def c07(tier, seed):
-    shapes = regex_shapes('C07', tier, seed, cap_thorough=20)
+    shapes = regex_shapes('C07', tier, seed, cap_thorough=10)
     costs = S._costs()
     # histories multiply the paths of a shape; the history harness uses a hand-picked list containing every operator
     # (both tiers); the wrapper harness (no selector product) takes the tier's shapes
@@ -435,7 +435,7 @@ def c07(tier, seed):
 
 
 def c10(tier, seed):
-    shapes = regex_shapes('C10', tier, seed, cap_thorough=20)
+    shapes = regex_shapes('C10', tier, seed, cap_thorough=10)
     ns, tl, b = ((0, 1, 2), 1, 2) if tier == 'quick' else ((0, 1, 2, 3), 1, 2)
     jobs = [RJ('vh_c10_replace', 1, n, b, tl, sh, 'replace_re / replace_re_all pattern %s |s|=%d |t|=%d' % (S.show(sh), n, tl)) for sh in shapes for n in ns]
     # longer subjects for patterns whose matches can overlap a failed partial match (needs |pattern| >= 3, |s| >= 4)
